@@ -11,6 +11,7 @@ import (
 	"os/exec"
 	"path/filepath"
 	"reflect"
+	"runtime"
 	"sync"
 
 	"github.com/markkurossi/mpc/ot"
@@ -659,9 +660,9 @@ func c18Round3Integrity(cs *vrt.Case, r *vrt.Rng, cv elliptic.Curve, a, b [32]by
 // each round-3 message is encoded when it is produced and again just before
 // it is consumed: the two encodings must be identical, and every session must
 // end with SHA-256(a xor b) of its own inputs. Half of the cases run the
-// round-3 calls of all sessions in parallel goroutines.
+// round-3 calls, and then the round-4 calls, of all sessions in parallel goroutines.
 func c18Interleaved(cs *vrt.Case, r *vrt.Rng, cv elliptic.Curve) {
-	n := r.Range(2, 4)
+	n := r.Range(2, 6)
 	type sess struct {
 		a, b   [32]byte
 		seed   uint64
@@ -737,10 +738,12 @@ func c18Interleaved(cs *vrt.Case, r *vrt.Rng, cv elliptic.Curve) {
 			if len(live) == 0 {
 				return
 			}
-			// all sessions at round 3: optionally in parallel
+			// all sessions at round 3 (and then all at round 4): optionally in
+			// parallel goroutines - a server answering, and a client finishing,
+			// several sessions at once
 			all3 := parallel3 && len(live) == n
 			for _, i := range live {
-				all3 = all3 && ss[i].step == 2
+				all3 = all3 && ss[i].step == ss[live[0]].step && (ss[i].step == 2 || ss[i].step == 3)
 			}
 			if all3 {
 				var wg sync.WaitGroup
@@ -751,6 +754,7 @@ func c18Interleaved(cs *vrt.Case, r *vrt.Rng, cv elliptic.Curve) {
 				}
 				wg.Wait()
 				order = append(order, -3)
+				cs.Count("rounds_run_in_parallel_goroutines", 1)
 				for _, i := range live {
 					if !oks[i] {
 						return
@@ -759,11 +763,11 @@ func c18Interleaved(cs *vrt.Case, r *vrt.Rng, cv elliptic.Curve) {
 				continue
 			}
 			i := live[r.Intn(len(live))]
-			if parallel3 && ss[i].step == 2 {
-				// hold this one until the others reach round 3
+			if parallel3 && (ss[i].step == 2 || ss[i].step == 3) {
+				// hold this one until the others reach the same round
 				waiting := false
 				for _, j := range live {
-					if ss[j].step < 2 {
+					if ss[j].step < ss[i].step {
 						i, waiting = j, true
 						break
 					}
@@ -796,6 +800,43 @@ func c18Interleaved(cs *vrt.Case, r *vrt.Rng, cv elliptic.Curve) {
 	}
 	cs.Key("interleaved", cv.Params().Name, fmt.Sprint(order), fmt.Sprint(ss[0].seed))
 	cs.Count("interleaved_session_groups", 1)
+	// finishing storm (fast curves): many goroutines complete (again) the last
+	// round of the prepared sessions at once and on few Ps, so that evaluations
+	// start while others are in the middle of theirs. Round 4 on the same session
+	// state and message gives the same digest every time (the repository's own
+	// idempotency test).
+	if name := cv.Params().Name; parallel3 && (name == "P-224" || name == "P-256") {
+		defer runtime.GOMAXPROCS(runtime.GOMAXPROCS(vrt.Pick(r, []int{1, 2})))
+		G := r.Range(8, 16)
+		var wg sync.WaitGroup
+		var mu sync.Mutex
+		var bad []string
+		for g := 0; g < G; g++ {
+			wg.Add(1)
+			go func(g int) {
+				defer wg.Done()
+				x := ss[g%n]
+				want := sha256.Sum256(sliceOf(xor32(x.a, x.b)))
+				for k := 0; k < 3; k++ {
+					var dg [32]byte
+					var err error
+					pan := vrt.Guard(func() { dg, err = sha2pc.EvaluatorRound4(cv, x.es, x.m3) })
+					if pan != nil || err != nil || dg != want {
+						mu.Lock()
+						bad = append(bad, fmt.Sprintf("goroutine %d, session %d, repetition %d: panic=%v err=%v digest ok=%v", g, g%n, k, pan != nil, err, dg == want))
+						mu.Unlock()
+						return
+					}
+				}
+			}(g)
+		}
+		wg.Wait()
+		cs.Evals += int64(3 * G)
+		cs.Count("finishing_storms", 1)
+		if len(bad) > 0 {
+			cs.Violate("C18|concurrent-round4", fmt.Sprintf("%d of %d goroutines completing round 4 of %d prepared sessions at the same time failed, e.g. %s", len(bad), G, n, bad[0]), map[string]any{"case": desc})
+		}
+	}
 }
 
 func sliceOf(a [32]byte) []byte { return a[:] }
